@@ -57,6 +57,8 @@ type c19Case struct {
 	UD    *c08Case  `json:"updown,omitempty"`
 	Flag  bool      `json:"flag"` // aggregate / table / wrap, depending on the entry
 	Proc  string    `json:"proc,omitempty"`
+	Large int       `json:"large,omitempty"` // > 0: records replicated this many times (output beyond 64 KiB: buffered writers must flush mid-run)
+	Picks []int     `json:"picks,omitempty"` // per-mille positions of extra fault points when the run has too many writes to enumerate
 }
 
 var c19Entries = []string{"snps", "snps-aggregate", "variants", "variants-aggregate", "sam-variants", "sam-variants-aggregate",
@@ -148,6 +150,8 @@ func checkC19(c c19Case, o *Obs) error {
 	if n == 0 {
 		return fmt.Errorf("%s: fault-free run performed no writes", c.Entry)
 	}
+	o.LabelIf(c.Large > 0, "large-output")
+	o.LabelIf(w0.buf.Len() > 65536, "output>64KiB")
 	// sanity: a second fault-free run gives the same bytes for single-threaded-order entries (not asserted: C12)
 	stats.count("fault_free_runs", 1)
 	stats.count("writes_total", n)
@@ -155,7 +159,33 @@ func checkC19(c c19Case, o *Obs) error {
 	if n >= 2 {
 		o.NonTrivial()
 	}
-	for k := 1; k <= n; k++ {
+	ks := make([]int, 0, n)
+	if n <= 60 {
+		for k := 1; k <= n; k++ {
+			ks = append(ks, k) // every fault point
+		}
+	} else {
+		// too many writes to enumerate: the first and last ones, quartiles, and drawn positions
+		seen := map[int]bool{}
+		add := func(k int) {
+			if k >= 1 && k <= n && !seen[k] {
+				seen[k] = true
+				ks = append(ks, k)
+			}
+		}
+		for k := 1; k <= 6; k++ {
+			add(k)
+			add(n - k + 1)
+		}
+		add(n / 4)
+		add(n / 2)
+		add(3 * n / 4)
+		for _, pm := range c.Picks {
+			add(1 + pm*(n-1)/1000)
+		}
+		stats.count("runs_with_sampled_fault_points", 1)
+	}
+	for _, k := range ks {
 		for _, sticky := range []bool{false, true} {
 			fw := &faultWriter{failAt: k, sticky: sticky}
 			rerr, to, pv := callTimeout(c19Deadline, func() error { return run(fw) })
@@ -279,11 +309,32 @@ func genC19(t *rapid.T) c19Case {
 		c.Entry = rapid.SampledFrom(c19Entries).Draw(t, "entry")
 	}
 	key := c.Entry + c.Proc
+	if c.Proc == "" && rapid.IntRange(0, 9).Draw(t, "large") == 0 {
+		c.Large = rapid.IntRange(2500, 5000).Draw(t, "largeN")
+		for i := 0; i < 8; i++ {
+			c.Picks = append(c.Picks, rapid.IntRange(0, 1000).Draw(t, "pick"))
+		}
+	}
 	switch {
 	case strings.HasPrefix(key, "snps"):
 		s := genC03(t)
 		for len(s.Recs) < 3 {
 			s.Recs = append(s.Recs, FaRec{ID: fmt.Sprintf("x%d", len(s.Recs)), Seq: s.Recs[0].Seq})
+		}
+		if c.Large > 0 {
+			// derived from the reference with a couple of SNPs so every row is non-empty
+			base := []byte(strings.ToUpper(s.Ref.Seq))
+			for i := range base {
+				if !isACGT(base[i]) {
+					base[i] = 'A'
+				}
+			}
+			base[0] = transitionOf(base[0])
+			base[len(base)-1] = transitionOf(base[len(base)-1])
+			s.Ref.Seq = strings.ToUpper(s.Ref.Seq)
+			for len(s.Recs) < c.Large {
+				s.Recs = append(s.Recs, FaRec{ID: fmt.Sprintf("sample_number_%06d", len(s.Recs)), Seq: string(base)})
+			}
 		}
 		c.Snps = &s
 	case strings.Contains(key, "variants"):
@@ -305,12 +356,26 @@ func genC19(t *rapid.T) c19Case {
 		c.Var = &vc
 	case strings.HasPrefix(key, "toMultiAlign") || strings.HasPrefix(key, "toPairAlign"):
 		in := genSamInput(t, samGenOpts{maxRef: 30, maxQueries: 5, maxRecs: 2})
+		if c.Large > 0 {
+			names := in.queryNames()
+			for k := 0; len(in.Recs) < c.Large; k++ {
+				for _, r := range in.recordsOf(names[k%len(names)]) {
+					r.Name = fmt.Sprintf("sample_number_%06d", k)
+					in.Recs = append(in.Recs, r)
+				}
+			}
+		}
 		c.Sam = &in
 	case strings.HasPrefix(key, "closest"):
 		cl := genC06(t)
 		c.Clo = &cl
 	default:
 		u := genC08(t)
+		if c.Large > 0 && c.Entry == "updown-list" {
+			for k := 0; len(u.Targets) < c.Large; k++ {
+				u.Targets = append(u.Targets, FaRec{ID: fmt.Sprintf("sample_number_%06d", k), Seq: u.Targets[k%len(u.Targets)].Seq})
+			}
+		}
 		c.UD = &u
 	}
 	return c
